@@ -5,7 +5,7 @@ from .. import lean, proto, gen, util
 
 REQUIRED = ['Petl.C09.' + n for n in (
     'groups_flatten groups_keys_strictly_ascending group_is_filter group_counts_sum_nrows group_sums_sum_total '
-    'selectfirst_is_first_of_key selectmin_is_min_of_group aggregate_applies_to_group groupcountdistinct_counts').split()]
+    'selectfirst_is_first_of_key selectmin_is_min_of_group aggregate_applies_to_group groupcountdistinct_counts keyless_aggregate_sees_every_row').split()]
 
 AGGS = {'len': len, 'list': list, 'sum': sum, 'min': min, 'max': max}
 
@@ -221,7 +221,8 @@ def run(ctx):
             def koracle(T=T, value=value, an=an):
                 vidx = None if value is None else asindices(T[0], value)
                 return [('value',), (AGGS[an]([getv(vidx, tuple(r)) for r in T[1:]]),)]
-            jobs.append(('aggregate:keyless-' + an, None, lambda T=T, value=value, an=an: etl.aggregate(T, None, AGGS[an], value),
+            jobs.append(('aggregate:keyless-' + an, 'agg KN %s %s %s - %s' % (util.enc_key(value), an, proto.enc('value'), ttok),
+                         lambda T=T, value=value, an=an: etl.aggregate(T, None, AGGS[an], value),
                          koracle, dict(base, key='None', agg=an, value=repr(value)), len(T) > 2))
         # --- groupcountdistinctvalues: per key group, the number of distinct values of the value field
         gv = vf if rng.random() < 0.7 else hdr.index(vf)
